@@ -31,7 +31,8 @@ def required(tier):
     return ["bound==note_time_at_start", "bound==note_time_at_end", "interval_with_0_notes", "omitted_end_longest_sustain_not_last",
             "error:absent_instrument", "error:absent_difficulty", "error:noteless_track", "error:zero_length", "error:negative_length",
             "form:none", "form:tick", "form:tick2", "form:none_tick", "form:ts", "form:ts2", "end_tick_0", "sub_second_interval",
-            "tick_and_time_forms_agree", "contract_evaluated", "note_lines_not_in_tick_order"]
+            "tick_and_time_forms_agree", "contract_evaluated", "note_lines_not_in_tick_order",
+            "call_form:positional", "call_form:bounds_by_keyword", "call_form:all_by_keyword"]
 
 
 def shards(tier, seed):
@@ -93,6 +94,9 @@ def install():
 
 
 # ------------------------------------------------------------------------------------------ driver
+_FORM = 0
+
+
 def call(rec, chart, text, inst, diff, args, label):
     I, D = harness.Instrument, harness.Difficulty
     i, d = I[inst], D[diff]
@@ -104,7 +108,20 @@ def call(rec, chart, text, inst, diff, args, label):
     rec.ev()
     contracts.drain("C16")
     try:
-        got = chart.notes_per_second(i, d, *args)
+        # the documented call forms rotate: positional, bounds by keyword (an omitted start is then really omitted, not None),
+        # everything by keyword
+        global _FORM
+        _FORM += 1
+        kw = {k: v for k, v in (("start", start), ("end", end)) if v is not None}
+        if _FORM % 3 == 1:
+            got = chart.notes_per_second(i, d, **kw)
+            rec.cls("call_form:bounds_by_keyword")
+        elif _FORM % 3 == 2:
+            got = chart.notes_per_second(instrument=i, difficulty=d, **kw)
+            rec.cls("call_form:all_by_keyword")
+        else:
+            got = chart.notes_per_second(i, d, *args)
+            rec.cls("call_form:positional")
         exc = None
     except Exception as e:  # noqa
         got, exc = None, e
@@ -254,4 +271,5 @@ def replay(case, rec):
     if not out.ok:
         return
     args = tuple(a if a is None or isinstance(a, int) else timedelta(microseconds=a["us"]) for a in case["args"])
-    call(rec, out.chart, case["text"], case["instrument"], case["difficulty"], args, "replay")
+    for _ in range(3):  # once per call form
+        call(rec, out.chart, case["text"], case["instrument"], case["difficulty"], args, "replay")
